@@ -19,3 +19,18 @@ def graph_chi2(seed, tier, quick=60, thorough=2000):
 
     r = C.run(seed, quick if tier == "quick" else thorough)
     return dict(ok=r["ok"], cases=r["cases"], distinct_nontrivial=r["edges"], graphs=r["graphs"], worlds=r["worlds"], samples=r["samples"], disagreements=r["disagreements"][:3])
+
+
+def assembly(seed, tier, quick=80, thorough=3000):
+    from harness import assembly as A
+
+    r = A.run(seed, quick if tier == "quick" else thorough)
+    return dict(ok=r["ok"], cases=r["cases"], distinct_nontrivial=r["graphs"], graphs=r["graphs"], worlds=r["worlds"], features=r["features"], solve_checked=r["solve_checked"], solve_nonfinite=r["solve_nonfinite"], fixed_vertices=r["fixed_vertices"], samples=r["samples"], disagreements=r["disagreements"][:3])
+
+
+def ctl(seed, tier, quick=(60, 400), thorough=(1500, 20000)):
+    from harness import ctl as C
+
+    a, b = quick if tier == "quick" else thorough
+    r = C.run(seed, a, b)
+    return dict(ok=r["ok"], cases=r["cases"], distinct_nontrivial=r["cases"], kinds=r["kinds"], outcomes=r["outcomes"], boundary_cases=r["boundary_cases"], samples=r["samples"], disagreements=r["disagreements"][:3])
